@@ -413,6 +413,10 @@ func runC16(c *Ctx) {
 	// the not-in-database sentinel survives Snapshot()/RestoreSnapshot()
 	if commitFn := c.Anchor("pkg/db/diffdb.(*cacheDB).commit"); commitFn != nil {
 		checkSentinelProducers(c, "C16.R6 snapshot-copy-faithful", commitFn)
+		// R7: what the application commit writes — and therefore what the state root is computed
+		// over — follows the overlay's classification: a staged delete wins over dirty, so a
+		// key overwritten and then deleted in one block is absent from the resulting state
+		checkCommitAlgebraAs(c, "C16.R7 commit-classification", commitFn)
 		snap := c.Anchor("pkg/db/diffdb.(*Database).Snapshot")
 		rest := c.Anchor("pkg/db/diffdb.(*Database).RestoreSnapshot")
 		if snap != nil && rest != nil {
